@@ -36,7 +36,7 @@ def gen(rng, tier):
     # (the sweep also checks what C20 demands: bad_alloc, no leak, previous/new bytes or an integrity error)
     for n in [16, 32, 33, 80, 200]:
         p1 = plain(n); p2 = plain(rng.choice([16, 40, 100]))
-        for api in ("ss_rotate", "ss_rotate_revealed", "ss_set", "ss_rotate_twice"):
+        for api in ("ss_rotate", "ss_rotate_revealed", "ss_set", "ss_rotate_twice", "ss_rotate_move_rotate"):
             cases.append(Case("oom %s %s %s" % (api, hexs(p1), hexs(p2)), "oom %s len%s" % (api, lcls(n)), True))
     return cases
 
